@@ -190,6 +190,7 @@ type mgrScn struct {
 	maxAtt     int
 	masterHealth []int // per tick: 0 ok, 1 missing, 2 ping failed, 3 fs readonly, 4 crash recovered, 5 crash recovered + ping failed, 6 crash recovered + fs readonly
 	masterDown []bool  // per tick: manager cannot reach the master
+	recGone    int     // 0 none; k: the k-th non-master host publishes no health record although its server is fine (its daemon lost the coordination service)
 	sleeps     []time.Duration
 	replica    []int // per replica: 0 running, 1 stopped, 2 dead
 	active     int   // 0 full, 1 master only, 2 all but last, 3 absent
@@ -412,13 +413,28 @@ func mgrRun(t *testing.T, out *verifh.Out, s mgrScn, dir string, kind string) {
 			badSince = time.Time{}
 		}
 		tree.Del("health")
+		goneHost := ""
+		if s.recGone > 0 {
+			var others []string
+			for _, h := range vSortedKeys(dcsView) {
+				if h != master {
+					others = append(others, h)
+				}
+			}
+			if s.recGone <= len(others) {
+				goneHost = others[s.recGone-1]
+			}
+		}
 		for h, st := range dcsView {
 			if h == master {
 				continue
 			}
-			if wd.Nodes[h].Alive {
+			if wd.Nodes[h].Alive && h != goneHost {
 				tree.Put("health/"+h, st)
 			}
+		}
+		if goneHost != "" {
+			dcsView[goneHost] = &nodestate.NodeState{}
 		}
 		if mh != nil {
 			tree.Put("health/"+master, mh)
@@ -589,6 +605,7 @@ func mgrGen(r *rand.Rand, focus string) mgrScn {
 	s.active = []int{0, 0, 0, 1, 2, 3, 4}[r.Intn(7)]
 	s.last = []int{0, 0, 1, 2, 3, 4, 5, 6}[r.Intn(8)]
 	s.lock = []int{0, 0, 0, 0, 0, 0, 0, 1, 2}[r.Intn(9)]
+	s.recGone = []int{0, 0, 0, 1, 2}[r.Intn(5)]
 	switch focus {
 	case "C05":
 		s.maint = []int{0, 0, 0, 0, 1, 2, 6, 7}[r.Intn(8)]
